@@ -240,10 +240,53 @@ pub fn check_spec(ctx: &Ctx, rep: &mut Report, fx: Option<&Fixture>, n: u64, d: 
     }
 }
 
+/// Fault injection: statements a backend refuses to render (it panics half-way through). Rendering them,
+/// through every kind of entry point, must leave nothing behind that changes what the following statements
+/// render to (the checks on those statements are the oracle).
+fn refused_statement(rep: &mut Report, k: u64) {
+    use sea_query::*;
+    let al = |s: &str| Alias::new(s);
+    let full = Query::select()
+        .column(al("a"))
+        .from(al("t1"))
+        .and_where(Expr::col(al("a")).eq("stale 'text' ?"))
+        .join(JoinType::FullOuterJoin, al("t2"), Expr::col((al("t1"), al("id"))).equals((al("t2"), al("t1_id"))))
+        .and_where(Expr::col(al("b")).eq(7))
+        .to_owned();
+    let any = Query::select()
+        .column(al("a"))
+        .from(al("t1"))
+        .and_where(Expr::col(al("a")).eq(Expr::any(Query::select().column(al("x")).from(al("t2")).take())))
+        .to_owned();
+    let mut refused = 0;
+    for form in 0..3 {
+        let (q, d) = if k % 2 == 0 { (&full, Dialect::Mysql) } else { (&any, Dialect::Sqlite) };
+        let r = guard(|| match form {
+            0 => match d {
+                Dialect::Mysql => q.to_string(MysqlQueryBuilder),
+                _ => q.to_string(SqliteQueryBuilder),
+            },
+            1 => q.build_any(qb(d)).0,
+            _ => {
+                let mut s = String::new();
+                q.build_collect_any_into(qb(d), &mut s);
+                s
+            }
+        });
+        if r.is_err() {
+            refused += 1;
+        }
+    }
+    rep.count("faults.refused_statement_renderings", refused);
+}
+
 pub fn check(ctx: &Ctx, rep: &mut Report) {
     let fx = Fixture::new();
     let total = ctx.size(5_000, 640_000) / ctx.nshards;
     for k in 0..total {
+        if ctx.wants(k) && (k % 5 == 2 || ctx.replay.is_some()) {
+            refused_statement(rep, k / 5);
+        }
         if ctx.wants(k) {
             for d in Dialect::ALL {
                 let mut rng = ctx.rng("stmt", k * 3 + d as u64);
